@@ -9,7 +9,7 @@ FUNCTIONS = ["bufferevent_readcb", "bufferevent_writecb", "bufferevent_setwaterm
              "be_filter_process_input", "be_underlying_writebuf_full", "be_readbuf_full"]
 BOUNDS = ("one step from an arbitrary state: input/output lengths, low/high marks, kernel read/write result, amount drained by the application are "
           "unconstrained 64-bit values (lengths <= SSIZE_MAX, read high mark < 2^63 in the main obligations; the >= 2^63 case is obligation *_hugewm); "
-          "watermark changed twice; filter: <= 3 filter invocations per step")
+          "watermark changed twice; filter: <= 3 filter invocations per step, lengths and marks <= 0xffff (three chained 64-bit symbolic transfers are beyond the SAT back end)")
 OUT = ("TLS bufferevents and their documented record overrun (external libraries cannot be encoded); the evbuffer itself (C12-C16: replaced by the "
        "contract sink env/evbuf_sink.h); rate limits (C22: none configured); the first installation of the watermark evbuffer callback happens with "
        "concrete marks (pointer-shaped state must be concrete for cbmc), every later change is symbolic; multi-step histories are by induction over "
@@ -47,4 +47,19 @@ def obligations(tier):
     for i, nm in enumerate(ops):
         obs.append(dict(name="pair_api_" + nm, harness=P, entry="harness_pair_api", defines=["C18_OP=%d" % i], unwind=10, unwindset=PU, timeout=600, mem_gb=4,
                         desc="pair, one API operation (%s) from an arbitrary consistent state: partner input never passes its high mark, nothing deliverable left behind, byte count conserved" % nm))
+    FH = "C18_filter.c"
+    obs += [dict(name="filter_out", harness=FH, entry="harness_filter_out", unwind=8, unwindset=PU, timeout=900, mem_gb=6,
+                 desc="be_filter_process_output (normal mode): harness filter moving a solver-chosen prefix, <=3 invocations; offered limit == room below the underlying high write mark, never past it, not urged when full/disabled/empty, write callback only <= low mark; lengths/marks <= 0xffff"),
+            dict(name="filter_in", harness=FH, entry="harness_filter_in", unwind=8, unwindset=PU, timeout=900, mem_gb=6,
+                 desc="be_filter_process_input (normal mode): limit == room below the filter's high read mark, input never past it, suspension state; lengths/marks <= 0xffff")]
+    if tier == "thorough":
+        obs += [dict(name="filter_out_flush", harness=FH, entry="harness_filter_out", defines=["C18_MODE=BEV_FLUSH"], unwind=8, unwindset=PU, timeout=1800, mem_gb=6,
+                     desc="be_filter_process_output in BEV_FLUSH mode: limit -1 (marks ignored by contract), byte conservation"),
+                dict(name="filter_in_finished", harness=FH, entry="harness_filter_in", defines=["C18_MODE=BEV_FINISHED"], unwind=8, unwindset=PU, timeout=1800, mem_gb=6,
+                     desc="be_filter_process_input in BEV_FINISHED mode"),
+                dict(name="filter_out_ndebug", harness=FH, entry="harness_filter_out", ndebug=True, unwind=8, unwindset=PU, timeout=1800, mem_gb=6, desc="filter_out, NDEBUG build"),
+                dict(name="pair_transfer_ndebug", harness=P, entry="harness_pair_transfer", ndebug=True, unwind=10, unwindset=PU, timeout=900, mem_gb=4, desc="pair_transfer, NDEBUG build"),
+                dict(name="sock_setwm_ndebug", harness=W, entry="harness_setwm", unwind=10, ndebug=True, timeout=600, mem_gb=4, desc="sock_setwm, NDEBUG build"),
+                dict(name="sock_read_noinstall", harness=W, entry="harness_read_wm", unwind=10, defines=["C18_NO_PREINSTALL"], timeout=600, mem_gb=4,
+                     desc="as sock_read but the watermark evbuffer callback is installed by the symbolic setwatermark itself (first installation)")]
     return obs
